@@ -235,6 +235,9 @@ EXC_KIND = {'TypeError': 'type', 'ZeroDivisionError': 'zerodiv', 'IndexError': '
             'OverflowError': 'value', 'AssertionError': 'assert', 'KeyError': 'internal', 'AttributeError': 'internal'}
 
 
+LAST_EXC = None
+
+
 class Recorder:
     def __init__(self):
         self.events = []
@@ -353,6 +356,8 @@ def run_program_impl(program, world, max_steps=20000):
         m.run(program)
         if state.get('fuel'):
             return 'FUEL', rec.events
+        global LAST_EXC
+        LAST_EXC = state['exc']
         if state['exc'] is not None:
             kind = EXC_KIND.get(type(state['exc']).__name__, 'other:' + type(state['exc']).__name__)
             return 'ABORT:' + kind, rec.events
